@@ -20,7 +20,7 @@ use rustc_hir as hir;
 use rustc_hir::def::{CtorOf, DefKind, Res};
 use rustc_hir::def_id::{DefId, LocalDefId, LOCAL_CRATE};
 use rustc_interface::interface::Compiler;
-use rustc_middle::ty::print::{with_crate_prefix, with_no_trimmed_paths, PrintTraitRefExt};
+use rustc_middle::ty::print::{with_crate_prefix, with_no_trimmed_paths, with_no_visible_paths, PrintTraitRefExt};
 use rustc_middle::ty::{self, Ty, TyCtxt, TypeckResults};
 use rustc_span::Span;
 use std::collections::HashMap;
@@ -109,7 +109,7 @@ impl<'tcx> Extractor<'tcx> {
     }
 
     fn ty_ix(&mut self, t: Ty<'tcx>) -> J {
-        let st = with_no_trimmed_paths!(with_crate_prefix!(t.to_string()));
+        let st = with_no_visible_paths!(with_no_trimmed_paths!(with_crate_prefix!(t.to_string())));
         let st = self.fix_crate(st);
         self.str_ix(st)
     }
@@ -124,7 +124,7 @@ impl<'tcx> Extractor<'tcx> {
     }
 
     fn path(&self, d: DefId) -> String {
-        let p = with_no_trimmed_paths!(with_crate_prefix!(self.tcx.def_path_str(d)));
+        let p = with_no_visible_paths!(with_no_trimmed_paths!(with_crate_prefix!(self.tcx.def_path_str(d))));
         self.fix_crate(p)
     }
 
@@ -296,7 +296,7 @@ impl<'tcx> Extractor<'tcx> {
         let st = self.ty_ix(self_ty);
         let tr = tcx.impl_opt_trait_ref(did).map(|t| {
             let t = t.instantiate_identity().skip_norm_wip();
-            let p = with_no_trimmed_paths!(with_crate_prefix!(t.print_only_trait_path().to_string()));
+            let p = with_no_visible_paths!(with_no_trimmed_paths!(with_crate_prefix!(t.print_only_trait_path().to_string())));
             self.fix_crate(p)
         });
         let derived = tcx.is_automatically_derived(did.to_def_id());
@@ -342,7 +342,7 @@ impl<'tcx> Extractor<'tcx> {
                         v.push(("impl_self", st));
                         if let Some(t) = tcx.impl_opt_trait_ref(p) {
                             let t = t.instantiate_identity().skip_norm_wip();
-                            let p = with_no_trimmed_paths!(with_crate_prefix!(t.print_only_trait_path().to_string()));
+                            let p = with_no_visible_paths!(with_no_trimmed_paths!(with_crate_prefix!(t.print_only_trait_path().to_string())));
                             v.push(("impl_trait", s(self.fix_crate(p))));
                         }
                     }
